@@ -124,6 +124,20 @@ def run(A, R: Report, thorough: bool):
                 reps = {n_ for n_ in reps if (n_ > 0) == pol}
         return {('0' if n_ == 0 else '1' if n_ == 1 else 'many') for n_ in reps}
 
+    def positional_defs(name):
+        """assignments that take a match by position: `name = matches[0]`, `next(iter(matches))`, or `name = other` inside a loop over a slice of the matches"""
+        out = []
+        for n_ in A.typer.own_nodes(f):
+            if isinstance(n_, ast.Assign) and any(isinstance(t_, ast.Name) and t_.id == name for t_ in n_.targets):
+                v_ = n_.value
+                if isinstance(v_, ast.Subscript) and _is_name(A, f, v_.value, mvar) and not isinstance(v_.slice, ast.Slice):
+                    out.append(n_)
+                elif isinstance(v_, ast.Call) and src(v_.func) == 'next' and mvar in src(v_):
+                    out.append(n_)
+                elif isinstance(v_, ast.Call) and src(v_.func) in ('min', 'max') and v_.args and _is_name(A, f, v_.args[0], mvar) and not v_.keywords:
+                    out.append(n_)      # lexicographic extreme: a property of the names' spelling, not of nesting
+        return out
+
     rets = [n for n in cfg.nodes.values() if n.kind == 'stmt' and isinstance(n.ast, ast.Return) and n.id in cfg.reachable_nodes() and n.owner is f.node]
     raises = [n for n in cfg.nodes.values() if n.kind == 'stmt' and isinstance(n.ast, ast.Raise) and n.id in cfg.reachable_nodes()]
     cand_loops = [lp for lp in A.typer.own_nodes(f) if isinstance(lp, ast.For) and _is_name(A, f, lp.iter, mvar) and isinstance(lp.target, ast.Name)]
@@ -141,7 +155,7 @@ def run(A, R: Report, thorough: bool):
             ok = poss == {'1'}
             R.check(ok, 'R10.2', f'_find_task_full_name: `return {vs}`', key_of('positional', vs, ok), 'only when exactly one match remains',
                     f'`return {vs}` picks a match by position while the number of matches can be {sorted(poss)}: resolution depends on declaration order', witness=[str(facts)], where=where(f, rn.ast))
-        elif isinstance(v, ast.Name) and any(lp.target.id == v.id for lp in cand_loops):
+        elif isinstance(v, ast.Name) and (any(lp.target.id == v.id for lp in cand_loops) or positional_defs(v.id)):
             # a loop candidate: must be guarded by a test over all matches
             fa = facts_ast(rn.id)
             quant = [a for a, pol in fa if pol and isinstance(a, ast.Call) and src(a.func) == 'all' and a.args and isinstance(a.args[0], (ast.GeneratorExp, ast.ListComp))]
@@ -155,21 +169,84 @@ def run(A, R: Report, thorough: bool):
                         f'`return {vs}` is not guarded by a test over all matches: an ambiguous short name resolves to whichever match comes first', witness=[str(facts)], where=where(f, rn.ast))
             elif flags:
                 R.ok('R10.2', f'_find_task_full_name: `return {vs}`', f'candidate is compared with every match (flag `{src(flags[0])}` cleared by a loop over all matches)', where=where(f, rn.ast))
-            elif weak or not any(v.id in src(a) for a, pol in fa):
+            elif weak or not any(v.id in src(a) for a, pol in fa) or (positional_defs(v.id) and 'many' in possible(rn.id)):
                 R.violation('R10.2', f'_find_task_full_name: `return {vs}`', key_of('candidate', vs, False),
                             f'`return {vs}` is not guarded by a test over all matches: an ambiguous short name resolves to whichever match comes first', witness=[str(facts)], where=where(f, rn.ast))
             else:
                 R.undecided('R10.2', f'_find_task_full_name: `return {vs}`', 'guard of the candidate return not recognised', where=where(f, rn.ast))
         else:
             R.undecided('R10.2', f'_find_task_full_name: `return {vs}`', 'return form not recognised', where=where(f, rn.ast))
-    r_many = [rn for rn in raises if possible(rn.id) == {'many'} and 'KeyError' in src(rn.ast)]
-    r_none = [rn for rn in raises if possible(rn.id) == {'0'} and 'KeyError' in src(rn.ast)]
+    def raised_class(st):
+        e = st.exc
+        if isinstance(e, ast.Call):
+            e = e.func
+        return src(e).split('.')[-1] if e is not None else None
+
+    def exc_ancestors(name):
+        """class names an `except` clause can name to catch an exception of class `name` (repo classes through their bases)"""
+        out = [name] if name else []
+        ci = A.prog.find_cls(name) if name else None
+        if ci is not None:
+            out += [c.name if hasattr(c, 'name') else str(c).split('.')[-1] for c in ci.mro]
+        if 'KeyError' in out:
+            out += ['LookupError']
+        return out + ['Exception', 'BaseException']
+
+    def is_keyerror(st):
+        return 'KeyError' in exc_ancestors(raised_class(st))
+
+    r_many = [rn for rn in raises if possible(rn.id) == {'many'} and is_keyerror(rn.ast)]
+    r_none = [rn for rn in raises if possible(rn.id) == {'0'} and is_keyerror(rn.ast)]
     R.check(bool(r_many), 'R10.2', '_find_task_full_name: ambiguity', key_of('raise-many'), 'KeyError when several matches remain', 'no KeyError is raised for an ambiguous name', where=where(f))
     R.check(bool(r_none), 'R10.2', '_find_task_full_name: absence', key_of('raise-none'), 'KeyError when nothing matches', 'no KeyError is raised for an unknown name', where=where(f))
     # every path to the function's normal exit with n>1 known passes the quantified loop: the ambiguity raise dominates nothing else
     for rn in r_many:
         # between the candidate loop and the raise there must be no other return
         pass
+
+    # ---- R10.5
+    R.rule('R10.5', 'where a caller turns the resolver\'s error into "no such task" and carries on (default of an optional input), the ambiguity error is not among the errors it swallows', floor=1)
+    n5 = 0
+    amb = sorted({raised_class(rn.ast) for rn in r_many})
+    for g in A.prog.functions.values():
+        if g is f or not g.module.name.startswith('taskchain'):
+            continue
+        for tr in [n_ for n_ in A.typer.own_nodes(g) if isinstance(n_, ast.Try) and n_.handlers]:
+            calls = [c for st in tr.body for c in ast.walk(st) if isinstance(c, ast.Call) and src(c.func).split('.')[-1] == f.name]
+            if not calls:
+                continue
+            cg5 = A.cfg(g)
+            for a_cls in amb:
+                anc = exc_ancestors(a_cls)
+                catcher = None
+                for h in tr.handlers:
+                    names = [src(x).split('.')[-1] for x in (h.type.elts if isinstance(h.type, ast.Tuple) else [h.type])] if h.type is not None else ['BaseException']
+                    if any(nm in anc for nm in names):
+                        catcher = h
+                        break
+                if catcher is None:
+                    n5 += 1
+                    R.ok('R10.5', f'{g.short}: `{src(calls[0])[:50]}`', f'{a_cls} propagates', where=where(g, calls[0]))
+                    continue
+                hn = [n_.id for n_ in cg5.nodes.values() if n_.kind == 'handler' and n_.ast is catcher]
+                # the handler may only leave by raising, or by returning False from a membership test (`in`: an ambiguous name identifies no task)
+                normal = [n_.id for n_ in cg5.nodes.values() if n_.id in cg5.reachable_nodes() and n_.id not in hn and n_.kind == 'stmt' and n_.ast is not None and
+                          not isinstance(n_.ast, ast.Raise) and not any(n_.ast is x for x in ast.walk(catcher))]
+                inside = [n_.id for n_ in cg5.nodes.values() if n_.kind == 'stmt' and n_.ast is not None and any(n_.ast is x for x in ast.walk(catcher))]
+                carries_on = [n_ for n_ in cg5.nodes.values() if n_.id in inside and not isinstance(n_.ast, ast.Raise) and cg5.path_exists([n_.id], normal) and
+                              not (isinstance(n_.ast, ast.Return) and n_.ast.value is not None and src(n_.ast.value) in ('False',))]
+                leaves = carries_on
+                is_contains = g.name == '__contains__'
+                bad = [n_ for n_ in leaves if not is_contains]
+                n5 += 1
+                R.check(not bad, 'R10.5', f'{g.short}: `except {src(catcher.type) if catcher.type is not None else ""}` around `{src(calls[0])[:40]}`', key_of('swallow-ambiguous', g.short, a_cls, sorted({src(n_.ast)[:40] for n_ in bad})),
+                        'the ambiguity error leaves the caller as an error',
+                        f'`except {src(catcher.type) if catcher.type is not None else ""}` also catches {a_cls} (ambiguous name) and carries on (`{src(bad[0].ast)[:60] if bad else ""}`): an optional input whose short name matches several tasks is silently treated as absent and the task runs with the default',
+                        where=where(g, catcher))
+    if not amb:
+        R.ok('R10.5', 'callers of the resolver', 'not applicable: the resolver raises no ambiguity error (reported by R10.2)', where=where(f))
+    else:
+        R.require(n5 >= 1, 'anchor: no caller of the resolver under a try found (Chain._process_dependencies)')
 
     # ---- R10.3
     R.rule('R10.3', 'every name-access entry point reaches the resolver; __contains__ converts exactly KeyError to False', floor=8)
@@ -190,7 +267,10 @@ def run(A, R: Report, thorough: bool):
             continue
         if mname == '__contains__':
             hs = [n for n in A.typer.own_nodes(m) if isinstance(n, ast.ExceptHandler)]
-            ok = bool(hs) and all(h.type is not None and src(h.type) == 'KeyError' and len(h.body) == 1 and isinstance(h.body[0], ast.Return) and src(h.body[0].value) == 'False' for h in hs)
+            from .common import returns_constant_from
+            cfgm = A.cfg(m)
+            ok = bool(hs) and all(h.type is not None and src(h.type) == 'KeyError' and
+                                  returns_constant_from(cfgm, [n_.id for n_ in cfgm.nodes.values() if n_.kind == 'handler' and n_.ast is h], False) is True for h in hs)
             R.check(ok, 'R10.3', f'{cname}.{mname}', key_of('contains-handler', [src(h.type) if h.type else 'bare' for h in hs]), 'reaches the resolver; KeyError -> False',
                     '__contains__ does not convert exactly KeyError to False (ambiguity would be reported as absence/presence, or other errors hidden)', witness=show_path(p), where=where(m))
         else:
